@@ -276,6 +276,7 @@ LINES = {
     "show": ("show", True),                          # writes that tag without registering it
     "alias": ("ff a -o", True),                      # the command named by its second alias
     "valid-noopt": ("foo a", True),                  # same command and argument as "valid", without the option
+    "len-multi": ("len a -t x -t y", True),          # a multi-valued option given twice
     # spares: VERIF_SEED rotates exactly one of them into the full alphabet
     "valid-ansi": ("foo a --ansi", True),
     "help-top": ("help top", True),
@@ -286,7 +287,7 @@ LINES = {
 }
 CORE = ["valid", "bad-option", "too-many", "help", "help-foo", "help-len", "foo-h", "version", "unknown",
         "len-surplus", "raise-vvv", "sub", "raise-vvv-ascii", "dflt-too-many", "help-dflt-too-many",
-        "help-top-sub", "help-other-sub", "fac", "paint", "show", "alias", "valid-noopt"]
+        "help-top-sub", "help-other-sub", "fac", "paint", "show", "alias", "valid-noopt", "len-multi"]
 CORE_REDUCED = ["valid", "help-len", "len-surplus", "help-dflt-too-many", "dflt-too-many", "version", "raise-vvv"]
 REDUCED_ROT = ["too-many", "foo-h", "bad-option", "help-foo", "unknown", "sub", "raise-vvv-ascii", "help"]
 SPARES = ["valid-ansi", "help-top", "top-h", "len-h", "valid-quiet", "top"]
@@ -315,6 +316,7 @@ def build_app(mode):
         f.set_description("A lenient command")
         f.add_argument("arg", Argument.OPTIONAL, "An argument")
         f.add_option("opt", "o", Option.NO_VALUE, "An option")
+        f.add_option("tag", "t", Option.REQUIRED_VALUE | Option.MULTI_VALUED, "A multi-valued option")
         f.enable_lenient_args_parsing()
         f.set_handler(handler("len"))
     with c.command("top") as f:  # has a sub-command
